@@ -546,7 +546,4 @@ def run_case(case):
 
 
 def sig(meta, what):
-    routes = set(meta["routes"])
-    if "legacy" in routes and any(tr["mag"] != ["num", "1"] for p, r in zip(meta["procs"], meta["routes"]) if r == "legacy" for tr in p["transitions"]):
-        return "legacy-route-drops-magnitude"
-    return "%s:routes=%s" % (what, ",".join(sorted(routes)))
+    return "%s:routes=%s" % (what, ",".join(sorted(set(meta["routes"]))))
